@@ -1,9 +1,30 @@
-import Driver.Util
+import Driver.HsShared
+/-
+  Line-protocol driver of property C06: the client machine against `ServerSpec` (`exchange`), with the
+  executable SHA-1 / AES-256 / modular exponentiation plugged in.
+    c06.hs <tag> <nonce> <new_nonce> <b> <padseed> <pad16> <n> <e> <d> <server_nonce> <p> <q> <g> <a>
+           <dh_prime> <time> <spad16> <minimal> <extra fps>
+-/
 namespace Driver.C06
-open Mtv Driver
+open Mtv Mtv.Handshake Driver Driver.Hs
 
-/-- operations of property C06; not built yet -/
 def handle : List String → String
+  | ["c06.hs", _tag, nonce, nn, b, _ps, pad, n, e, d, sn, p, q, g, a, dhp, t, spad, mn, xfp] =>
+    match parseBytes? nonce, parseBytes? nn, parseBytes? b, parseBytes? pad, hexNat? n, e.toNat?, hexNat? d with
+    | some nonce, some nn, some b, some pad, some n, some e, some d =>
+      match hexNat? sn, p.toNat?, q.toNat?, g.toNat?, hexNat? a, hexNat? dhp, t.toNat?, parseBytes? spad, natList? xfp with
+      | some sn, some p, some q, some g, some a, some dhp, some t, some spad, some xfp =>
+        if nonce.length ≠ 16 ∨ nn.length ≠ 32 ∨ b.length ≠ 256 ∨ pad.length ≠ 16 ∨ spad.length ≠ 16 then "bad-op" else
+        let c : Cfg := { R := Mtv.Gen.registry, P := prims (some (p, q)), key := ⟨n, e⟩, d := ⟨nonce, nn, b, pad⟩ }
+        let s : Secrets := { d := d, serverNonce := sn, p := p, q := q, g := g, a := a, dhPrime := dhp, time := t,
+                             pad := spad, minimal := mn == "1", extraFps := xfp }
+        let x := exchange c s
+        let srv := match x.server with
+          | some r => s!"srv=done skey={showBytes r.authKey} ssalt={toSigned 64 r.salt} shash={toHexD r.hash}"
+          | none => "srv=refused skey=- ssalt=0 shash=-"
+        resultLine x.client x.actions ++ " " ++ srv
+      | _, _, _, _, _, _, _, _, _ => "bad-op"
+    | _, _, _, _, _, _, _ => "bad-op"
   | _ => "bad-op"
 
 end Driver.C06
